@@ -339,11 +339,13 @@ class OptionsDictionary(object):
                 self._context_cache[option] = []
             self._context_cache[option].append(self[option])
             self[option] = val
-        yield
-        for option in kwargs:
-            self[option] = self._context_cache[option].pop()
-            if len(self._context_cache[option]) == 0:
-                self._context_cache.pop(option)
+        try:
+            yield
+        finally:
+            for option in kwargs:
+                self[option] = self._context_cache[option].pop()
+                if len(self._context_cache[option]) == 0:
+                    self._context_cache.pop(option)
 
     def declare(self, name, default=_UNDEFINED, values=None, types=None, desc='',
                 upper=None, lower=None, check_valid=None, allow_none=False, recordable=True,
